@@ -37,6 +37,7 @@ OBJS = [None, {"a": 1}, [1, 2, 3], "multi\nline", 1.5, "plain", {"k": "中"}, "t
 GEOMS = [None, {"type": "Point", "coordinates": [1, 2]}, {"type": "LineString", "coordinates": [[0, 0], [1, 1]]}]
 KINDS = ["float", "int", "bool", "str", "date", "datetime", "timedelta", "object"]
 OPTS = [None, None, None, 1, 2, 3, 5, 10, 20, 200]
+OPTS0 = OPTS + [0]        # 0 is falsy: "use the default", like None
 
 
 def fl(v):
@@ -49,6 +50,18 @@ def gen_vals(rng, kind, n, ctrl=False):
     if kind == "float" and rng.random() < 0.5:
         pool = [x for x in pool if not (isinstance(x, float) and (abs(x) > 1e16 or 0 < abs(x) < 1e-6))]
     return [rng.choice(pool) for _ in range(n)]
+
+
+def unmark(x):
+    """"__nan__" / "__inf__" / "__-inf__" stand for the float values NaN / inf / -inf (a ListOfDicts may hold any value; as a
+    missing-value marker NaN is common in data that came through pandas)"""
+    if isinstance(x, str) and x in ("__nan__", "__inf__", "__-inf__"):
+        return {"__nan__": math.nan, "__inf__": math.inf, "__-inf__": -math.inf}[x]
+    if isinstance(x, list):
+        return [unmark(v) for v in x]
+    if isinstance(x, dict):
+        return {k: unmark(v) for k, v in x.items()}
+    return x
 
 
 def gen_settings(rng):
@@ -82,7 +95,7 @@ def gen_case(rng, tier, ctrl=False):
             kind = rng.choice(KINDS)
             cols.append({"name": nm, "kind": kind, "vals": gen_vals(rng, kind, n, ctrl)})
         case = {"op": "frame", "n": n, "cols": cols, "settings": settings, "how": rng.choice(["to_string", "to_string", "str", "repr", "print_"]),
-                "max_rows": rng.choice(OPTS), "max_width": rng.choice(OPTS + [40, 80]), "truncate_width": rng.choice(OPTS), "ctrl": ctrl}
+                "max_rows": rng.choice(OPTS0), "max_width": rng.choice(OPTS0 + [40, 80]), "truncate_width": rng.choice(OPTS0), "ctrl": ctrl}
         if rng.random() < 0.3 and ncol > 0:
             case["geo"] = [rng.choice(GEOMS) for _ in range(n)]
             case["geo_pos"] = rng.randint(0, ncol)
@@ -99,7 +112,7 @@ def gen_case(rng, tier, ctrl=False):
     for _ in range(n):
         d = {}
         for k in rng.sample(["a", "b", "値", "d"], rng.randint(0, 3)):
-            d[k] = rng.choice([1, 2.5, None, "x", "中文", "x\ny", [1, {"z": None}], True] + (CTRL if ctrl else []))
+            d[k] = rng.choice([1, 2.5, None, "x", "中文", "x\ny", [1, {"z": None}], True, "__nan__", "__inf__", {"deep": ["__-inf__"]}] + (CTRL if ctrl else []))
         items.append(d)
     return {"op": "lod", "items": items, "settings": settings, "how": rng.choice(["to_string", "str", "repr", "print_"]),
             "max_items": rng.choice([None, None, 1, 2, 10]), "ctrl": ctrl}
@@ -260,7 +273,7 @@ def impl(case):
             except Exception as e:
                 res["cells_err"] = f"{type(e).__name__}: {e}"
         else:
-            obj = di.ListOfDicts(copy.deepcopy(case["items"]))
+            obj = di.ListOfDicts(unmark(copy.deepcopy(case["items"])))
             before = snap(obj)
             kw = {} if case["max_items"] is None else {"max_items": case["max_items"]}
             try:
@@ -440,8 +453,8 @@ def judge(ctx, case, obs, mouts):
         part = out[:-len(foot)] if out.endswith(foot) else out
         try:
             shown = json.loads(part)
-            want = json.loads(json.dumps(case["items"][:mi]))
-            if shown != want:
+            want = json.loads(json.dumps(unmark(case["items"][:mi])))
+            if json.dumps(shown, sort_keys=True) != json.dumps(want, sort_keys=True):      # (NaN != NaN: compare the texts)
                 ctx.violation("oracle", "lod:items", "the items shown are not the first max_items items", case, obs)
         except Exception as e:
             ctx.violation("oracle", "lod:json", f"the rendering is not JSON (+ footer): {e}", case, obs)
